@@ -63,7 +63,7 @@ class Ctx:
         return name
 
 
-def render(seq, stack, ctx, flow, path, nw=1):
+def render(seq, stack, ctx, flow, path, nw=1, nested=False):
     out = [' '.join(ctx.w(stack[-1], flow, path) for _ in range(nw))]
     for i, (ci, kids) in enumerate(seq):
         c, l = ctx.C[ci]
@@ -73,8 +73,8 @@ def render(seq, stack, ctx, flow, path, nw=1):
             st = stack + [LANGS[l]]
             before = ctx.last
             n0 = ctx.n
-            inner = render(kids, st, ctx, flow, path + ((c, i),), ctx.inw if not kids else nw)
-            if ctx.tail:
+            inner = render(kids, st, ctx, flow, path + ((c, i),), ctx.inw if not kids else nw, nested=True)
+            if ctx.tail and ctx.tail != 'NOWORD':
                 inner += ' ' + ctx.tail
             if c == 'F':
                 out.append('\\foreignlanguage{%s}{%s}' % (l, inner))
@@ -96,6 +96,8 @@ def render(seq, stack, ctx, flow, path, nw=1):
             out.append('\\footnote{%s}' % render(kids, [stack[-1]], ctx, ctx.nflow, path + (('N', i),), nw))
         elif c == 'B':
             out.append('\\textbf{%s}' % render(kids, stack, ctx, flow, path + (('B', i),), nw))
+        if nested and ctx.tail == 'NOWORD' and i == len(seq) - 1:
+            continue        # the inner construct closes together with the enclosing one
         first = 'W' + chr(97 + ctx.n // 26) + chr(97 + ctx.n % 26) + 'q'
         out.append(' '.join(ctx.w(stack[-1], flow, path) for _ in range(nw)))
         if pend is not None:
@@ -133,7 +135,7 @@ PREAMBLES = {
     'cls-en-pkg-de': ('\\documentclass[english]{article}\n\\usepackage[ngerman]{babel}\n', 'ru-RU', 'de-DE'),
     'cls-ru-pkg-none': ('\\documentclass[russian,a4paper]{scrartcl}\n\\usepackage[T1]{fontenc}\\usepackage{babel}\n', 'en-GB', 'ru-RU'),
 }
-TAILS = [None, '\\LaTeX', '\\xxx']
+TAILS = [None, '\\LaTeX', '\\xxx', 'NOWORD']
 
 
 class C12:
